@@ -66,6 +66,14 @@ def cases(tier, seed, args):
             out.append(dict(t='mvdr', stack=['single', 'bcast', 'stack', 'kstack'][i % 4], K=int(rng.integers(1, 4)), **base(i)))
         for i in range(n):
             out.append(dict(t='lcmv', K=1 + (i // 2) % 3, general=bool(i % 2), **base(i)))
+        # sensors with strongly mismatched gains (Phi = G Phi0 G, one channel 46 .. 80 dB below the others, condition <= 1e6)
+        for i in range(6 if q else 24):
+            out.append(dict(t='mvdr', stack=['single', 'bcast', 'stack', 'kstack'][i % 4], K=2, chan_gain=[0.005, 1e-4, 200.0][i % 3],
+                            **dict(base(i), cond=[10.0, 1.0, 3.0][i % 3], D=int(rng.integers(2, 6)))))
+        # two nearly collinear (but independent) steering vectors
+        for i in range(4 if q else 16):
+            out.append(dict(t='lcmv', K=2 + i % 2, general=bool(i % 2), collinear=[1.5e-5, 1e-4][(i // 2) % 2],
+                            **dict(base(i), cond=[100.0, 10.0][i % 2], D=int(rng.integers(3, 7)))))
         for i in range(n * 2):
             out.append(dict(t='souden', lead=int(i % 3 == 2), **base(i)))
         for i in range(n * 2):
@@ -85,6 +93,14 @@ def cases(tier, seed, args):
                             dtypes=['cc', 'rc', 'cc', 'cr', 'ic'][(i // 2) % 5], **base(i)))
         for i in range(n * 2):
             out.append(dict(t='pca', scaling=[None, 'trace', 'eigenvalue'][i % 3], lead=int(i % 2), **base(i)))
+        # more than 256 bins in one call (a whole spectrum, or sources x frequencies)
+        for i in range(2 if q else 8):
+            out.append(dict(t='gev', use_eig=bool(i % 4 == 3), lead=int(i % 2), layout='C', dtypes='cc', **dict(base(i), F=[257, 300, 513, 260][i % 4], D=int(rng.integers(2, 5)))))
+            out.append(dict(t='pca', scaling=[None, 'trace', 'eigenvalue'][i % 3], lead=int(i % 2), **dict(base(i), F=[257, 300][i % 2], D=int(rng.integers(2, 5)))))
+        # bins on very different levels in one call (up to 400 dB apart): every bin is its own problem
+        for i in range(4 if q else 16):
+            out.append(dict(t='pca', scaling=[None, 'trace', 'eigenvalue'][i % 3], lead=int(i % 2), level_spread=True, **dict(base(i), F=int(rng.integers(2, 6)))))
+            out.append(dict(t='gev', use_eig=bool(i % 2), lead=int(i % 2), layout='C', dtypes='cc', level_spread=True, **dict(base(i), F=int(rng.integers(2, 6)))))
         for i in range(n):
             out.append(dict(t='pca', scaling=[None, 'trace', 'eigenvalue'][i % 3], lead=int(i % 2), structure=['mixed', 'diag', 'mixed', 'rank1axis'][i % 4],
                             **dict(base(i), D=[2, 2, 3, 4, 2][i % 5])))
@@ -270,6 +286,12 @@ def run_case(case):
     if t == 'mvdr':
         phin = pd(rng, F, D, case['cond'])
         lvl = [1.0, 1e-16, 1e12, 1e-22][case['seed'] % 4]       # absolute level of the noise field (the vector does not depend on it)
+        if case.get('chan_gain'):
+            g = np.ones(D)
+            g[int(rng.integers(D))] = case['chan_gain']
+            phin = phin * g[:, None] * g[None, :]
+            lvl = 1.0
+            fp += ';chan_gain'
         phin = phin * lvl
         fp += f';level={lvl:g}'
         st = case['stack']
@@ -300,6 +322,9 @@ def run_case(case):
         K = min(case['K'], D)
         phin = pd(rng, F, D, case['cond'])
         A = cvec(rng, K, F, D)
+        if case.get('collinear'):
+            A[1] = A[0] + case['collinear'] * cvec(rng, F, D)
+            fp += ';collinear'
         # requested responses: one-hot (the documented use) and general exactly representable gains
         if not case.get('general'):
             resp = np.zeros(K)
@@ -396,6 +421,11 @@ def run_case(case):
         phin = pd(rng, F, D, min(case['cond'], 1e6))
         phix = pd(rng, F, D, 1e2)
         lead = case['lead']
+        if case.get('level_spread'):
+            lv = 10.0 ** rng.choice([0, -13, 5, -20, 8], size=F)
+            lv[0], lv[-1] = 1.0, 1e-13
+            phix, phin = phix * lv[:, None, None], phin * (lv ** 0.5)[:, None, None]
+            fp += ';level_spread'
         if case.get('layout') == 'F':
             phix, phin = flay(phix), flay(phin)
         dtm = case.get('dtypes', 'cc')
@@ -425,7 +455,7 @@ def run_case(case):
             if o is not None and np.all(np.isfinite(o)):
                 others.append(o)
         its = []
-        for f in range(min(F, 6)):
+        for f in sorted(set(list(range(min(F, 4))) + [F // 2, F - 1])):
             probes = [cvec(rng, D) for _ in range(3)] + [np.eye(D)[i].astype(complex) for i in range(min(D, 2))] + \
                      [o[f] for o in others]
             its.append(dict(phix=Z(phix[f]), phin=Z(phin[f]), w=[] if w is None else Z(w[f]), probes=[Z(p) for p in probes]))
@@ -448,6 +478,11 @@ def run_case(case):
                     if D > 2:
                         v[rng.integers(D)] = cvec(rng, 1)[0]
                     phi[f] = np.outer(v, v.conj())
+        if case.get('level_spread'):
+            lv = 10.0 ** rng.choice([0, -13, 5, -20, 8], size=F)
+            lv[0], lv[-1] = 1.0, 1e-13
+            phi = phi * lv[:, None, None]
+            fp += ';level_spread'
         px = phi
         for _ in range(case['lead']):
             px = px[None]
@@ -463,7 +498,8 @@ def run_case(case):
         if w is not None:
             w = w.reshape(F, D)
         its = [dict(phi=Z(phi[f]), w=[] if w is None else Z(w[f]),
-                    probes=[Z(cvec(rng, D)) for _ in range(3)] + [Z(np.eye(D)[i].astype(complex)) for i in range(D)]) for f in range(min(F, 6))]
+                    probes=[Z(cvec(rng, D)) for _ in range(3)] + [Z(np.eye(D)[i].astype(complex)) for i in range(D)])
+               for f in sorted(set(list(range(min(F, 4))) + [F // 2, F - 1]))]
         return [dict(kind='pca', scaling=case['scaling'] or 'none', items=its, exc=exc,
                      fp=fp + f';scaling={case["scaling"]};structure={st}', key=f'pca:{case["seed"]}')]
     if t == 'rank1':
